@@ -9,11 +9,22 @@
      pre[tag]                 what line.transcription_confidence held before the export (confs counts only where the export wrote it),
      sure[tag]                lower bound (millionths, -1 = none) of the line's confidence known by construction of its posteriors,
                               both in millionths (2000000 = None / line never processed)
-     outcome                  "ok" | "exception:<Type>"
+     outcome                  "ok" | "exception:<Type>" | "unreadable:<Type>" (file variant: to_altoxml returned, but the bytes
+                              it wrote are not the well-formed XML file they declare to be)
      obs.blocks[k]            [idx (from the TextBlock ID), rect = <<HPOS,VPOS,WIDTH,HEIGHT>>,
                                lines = <<[tag (from VPOS), items = <<[k = "S"|"SP", c = tokens of CONTENT]>>, wc = WC values*100 + 1000]>>]
      obs.geo                  PrintSpace / margin rectangles,  obs.ints = every geometry attribute is an integer literal
      imp_outcome, imp         re-import: per block, per line, the words of the imported transcription
+
+   The same format records (round 9; the clauses below are unchanged)
+     - the FILE variant  page.to_altoxml(path) ; PageLayout().from_altoxml(path)  - obs is read off the bytes of the written
+       file, minconf = 0 (to_altoxml has no threshold argument) - in the checking process and in child processes started in
+       another process environment (locale encoding ASCII: LC_ALL=C with Python's UTF-8 mode off);
+     - the SECOND GENERATION  p2 = from_altoxml_string(p.to_altoxml_string()) ; s2 = p2.to_altoxml_string() ; from_altoxml_string(s2):
+       the input of the trace is the rebuilt page p2 itself (W, H, block rectangles and texts read off the object, every line
+       in situation "nochars", lines identified by their position in p2), obs / imp belong to s2: a rebuilt page is a page of
+       the statement like any other (baseline, polygon, heights, transcription; posteriors absent);
+     - pages whose region outlines are nested lists (the form from_altoxml builds) around lines with posteriors.
 
    The machine of AltoExport is run on the recorded input (confidence choices pinned to the recorded ones); in its final
    state the recorded file is judged clause by clause.  Register 2 of TraceKit receives the bit mask of failed clauses.
@@ -44,7 +55,7 @@ NB == Len(page.blocks)
 InLine(k, tag) == page.blocks[k].lines[tag - LinesBefore(page, k)]
 ValidTag(k, tag) == tag - LinesBefore(page, k) \in 1..Len(page.blocks[k].lines)
 
-\* 1: the export succeeded
+\* 1: the export succeeded (string variant: returned a string; file variant: returned and left a readable file)
 C1 == Tr.outcome = "ok"
 \* 2: one TextBlock per region, in layout order
 C2 == Len(Obs.blocks) = NB /\ \A k \in 1..NB : Obs.blocks[k].idx = k
